@@ -166,6 +166,17 @@ class T2Tag(TagSim):
         self.halted = True
         return b"\x00"
 
+    def refuse(self, cmd):
+        """the tag refuses this command (e.g. an EEPROM write error, a
+        locked page): it executes nothing, answers NAK and is halted"""
+        self.ncmd += 1
+        if self.halted:
+            return None
+        self.pending_sector = False
+        # NAK for EEPROM write error after WRITE, invalid argument otherwise
+        self.halted = True
+        return b"\x05" if bytes(cmd)[:1] == b"\xA2" else b"\x00"
+
     def command(self, cmd, timeout=None):
         self.ncmd += 1
         if self.halted:
